@@ -811,6 +811,84 @@ func C14Cold(mode, tier string, seed int64, idx int) {
 	fmt.Println("C14RESULT " + string(b))
 }
 
+// C14Ages is the "elapsed time" workload (plain build): one process that computes the baselines, then
+// goes idle and wakes at growing process ages (so that both the age and the idle gap before each wake grow:
+// 0.5 s ... 31.5 s idle in quick, ... 10 min idle in thorough) and, at every wake, makes every call of the alphabet once, in a
+// rotated order (so that a different entry point is the first call after the idle period each time),
+// re-reads everything observable of the objects parsed at the start, and does a Get/Set round on clones of them.
+// Time is a stimulus only: the verdict is equality with the baseline. It runs in the shadow of the other builds.
+func C14Ages(tier string, seed int64) {
+	start := time.Now()
+	res := &c14Result{Mode: "ages", Counters: map[string]int64{}}
+	st := &c14State{res: res, seed: seed, keysBy: map[string]uint64{}, ctx: NewDistinct(1 << 16)}
+	inputs, shared := c14Baseline(st, seed)
+	type sh struct {
+		o   probe.Obj
+		sig string
+		ver int
+		vec string
+	}
+	var objs []sh
+	for vi := range shared {
+		for _, o := range shared[vi] {
+			v, _ := probe.SafeVector(o)
+			objs = append(objs, sh{o, sigObj(probe.APIs[vi], o), vi, strings.Clone(v)})
+		}
+	}
+	wakes := []float64{0.5, 1.5, 3.5, 7.5, 15.5, 47}
+	if tier == "thorough" {
+		wakes = append(wakes, 110, 300, 910)
+	}
+	if s := os.Getenv("VERIF_C14_AGES"); s != "" { // testing aid: comma-separated ages in seconds
+		wakes = nil
+		for _, f := range strings.Split(s, ",") {
+			x, _ := strconv.ParseFloat(f, 64)
+			wakes = append(wakes, x)
+		}
+	}
+	last := time.Since(start)
+	for k, w := range wakes {
+		if d := time.Duration(w*float64(time.Second)) - time.Since(start); d > 0 {
+			time.Sleep(d)
+		}
+		age := time.Since(start)
+		det := map[string]any{"workload": "ages", "process_age_s": age.Seconds(), "idle_before_s": (age - last).Seconds(), "note": "depends on elapsed time: re-running the replay immediately may not reproduce it"}
+		n := len(inputs)
+		for j := 0; j < n; j++ {
+			in := &inputs[(j+k*17+int(seed))%n]
+			got := sigParse(probe.APIs[in.ver], in.s)
+			if got != in.base {
+				st.mismatch(Violation{Kind: "result-depends-on-elapsed-time", Version: spec.Versions[in.ver].Name, Steps: parseSteps(in.s), Expected: in.base, Observed: got, Detail: det})
+			}
+			st.events.Add(1)
+		}
+		for j := range objs {
+			o := &objs[(j+k*5)%len(objs)]
+			api := probe.APIs[o.ver]
+			if got := sigObj(api, o.o); got != o.sig {
+				st.mismatch(Violation{Kind: "result-depends-on-elapsed-time", Version: api.Ver.Name, Steps: append(parseSteps(o.vec), Step{Op: "vector"}, Step{Op: "score"}), Expected: o.sig, Observed: got, Detail: det})
+			}
+			cl := o.o.Clone()
+			for _, me := range api.Ver.Metrics {
+				g, _, _ := probe.SafeGet(cl, me.Abv)
+				if err, p := probe.SafeSet(cl, me.Abv, g); err != nil || p != nil {
+					st.mismatch(Violation{Kind: "result-depends-on-elapsed-time", Version: api.Ver.Name, Steps: append(parseSteps(o.vec), Step{Op: "vector"}, Step{Op: "score"}), Expected: "Set(" + me.Abv + "," + g + ") of the value just read succeeds", Observed: fmt.Sprint(err, p), Detail: det})
+				}
+			}
+			if got := sigObj(api, cl); got != o.sig {
+				st.mismatch(Violation{Kind: "result-depends-on-elapsed-time", Version: api.Ver.Name, Steps: append(parseSteps(o.vec), Step{Op: "vector"}, Step{Op: "score"}), Expected: "after re-setting every metric to its own value: " + o.sig, Observed: got, Detail: det})
+			}
+			st.events.Add(2)
+		}
+		res.Configs = append(res.Configs, fmt.Sprintf("woke at process age %.1fs after %.1fs idle", age.Seconds(), (age - last).Seconds()))
+		last = time.Since(start)
+	}
+	res.Events = st.events.Load()
+	res.Counters["wakes"] = int64(len(wakes))
+	b, _ := json.Marshal(res)
+	fmt.Println("C14RESULT " + string(b))
+}
+
 // C14Child is the workload process: mode = plain | race | race-instr | asan.
 func C14Child(mode, tier string, seed int64) {
 	res := &c14Result{Mode: mode, Counters: map[string]int64{}}
@@ -1000,6 +1078,22 @@ func CheckC14(c *Ctx) {
 	var totalEvents int64
 	var distinct int64
 	summary := map[string]any{}
+	// the elapsed-time workload runs in the shadow of everything else
+	var agesOut []byte
+	var agesErr error
+	agesDone := make(chan struct{})
+	go func() {
+		defer close(agesDone)
+		bin := os.Getenv("VERIF_BIN_PLAIN")
+		if bin == "" {
+			return
+		}
+		cmd := exec.Command(bin, "C14ages", c.Tier, fmt.Sprint(c.Seed))
+		ef, _ := os.Create(filepath.Join(logDir, "ages.stderr"))
+		cmd.Stderr = ef
+		agesOut, agesErr = cmd.Output()
+		ef.Close()
+	}()
 	for _, b := range builds {
 		bin := os.Getenv(b.env)
 		if bin == "" {
@@ -1139,15 +1233,44 @@ func CheckC14(c *Ctx) {
 			c.Samples = append(c.Samples, map[string]any{"build": b.mode, "events": res.Events, "configurations": res.Configs, "some_inputs_with_baseline": res.SampleInputs})
 		}
 	}
+	<-agesDone
+	{
+		var res c14Result
+		found := false
+		for _, l := range strings.Split(string(agesOut), "\n") {
+			if strings.HasPrefix(l, "C14RESULT ") && json.Unmarshal([]byte(l[10:]), &res) == nil {
+				found = true
+			}
+		}
+		if !found {
+			eb, _ := os.ReadFile(filepath.Join(logDir, "ages.stderr"))
+			tail := string(eb)
+			if len(tail) > 3000 {
+				tail = tail[len(tail)-3000:]
+			}
+			c.Violate(Violation{Kind: "process-died-under-workload", Expected: "the plain build survives the elapsed-time workload", Observed: fmt.Sprintf("exit: %v; stderr tail: %s", agesErr, tail), Detail: map[string]any{"build": "plain", "workload": "ages"}})
+		} else {
+			for _, m := range res.Mismatches {
+				if m.Detail == nil {
+					m.Detail = map[string]any{}
+				}
+				m.Detail["build"] = "plain"
+				c.Violate(m)
+			}
+			totalEvents += res.Events
+			summary["elapsed-time (plain)"] = map[string]any{"events": res.Events, "wakes": res.Configs}
+			c.Floor("wakes of the elapsed-time workload", res.Counters["wakes"], 6)
+		}
+	}
 	c.Evals = totalEvents
 	c.Extra["builds"] = summary
 	if s := os.Getenv("VERIF_INSTR_POINTS"); s != "" {
 		c.Extra["yield_points_inserted"] = s
 	}
 	c.SetReport(Report{
-		Rule:        "four builds of the CURRENT tree (plain; -race; -race after the AST yield-point pass that inserts seeded Gosched/sleep calls at loop heads and after call statements of go-cvss; -asan in thorough). In each: (1) baselines of ~40 inputs per version computed after forced double GC in forward and reverse order (must agree with each other, with the grammar/canonical-form oracles and -- plain build -- with the same call made as the first call of a fresh process); (2) sequential histories hostile to pooled scratch buffers under GOMAXPROCS(1)+GC off: ALL ordered pairs per version, all triples for v2 (1/7 for others), random sequences of 2-50 calls across versions -- every result must equal its baseline; (3) goroutines {4,8,16,64} x GOMAXPROCS {1,2,16} hammering the small shared input set, plus a hot-keys phase per repetition over only 2-4 inputs (parse, everything observable of shared read-only objects, Set on local copies, parse-mutate-parse, Rating) with results compared to baselines; (0) cold concurrent starts: short-lived processes in which NO go-cvss call has happened yet release 8-24 goroutines together, round by round, on the same parse + score + Vector call (550 first-use rounds each), judged against the spec oracles; (4) every Vector() string kept next to an immediate clone and re-compared later, forced GC every 10k events. Race reports are counted from the GORACE log (never from the exit code) and de-duplicated by first-frame pair. evaluations = events; distinct = distinct (previous call, current call) context pairs summed over builds",
+		Rule:        "four builds of the CURRENT tree (plain; -race; -race after the AST yield-point pass that inserts seeded Gosched/sleep calls at loop heads and after call statements of go-cvss; -asan in thorough). In each: (1) baselines of ~40 inputs per version computed after forced double GC in forward and reverse order (must agree with each other, with the grammar/canonical-form oracles and -- plain build -- with the same call made as the first call of a fresh process); (2) sequential histories hostile to pooled scratch buffers under GOMAXPROCS(1)+GC off: ALL ordered pairs per version, all triples for v2 (1/7 for others), random sequences of 2-50 calls across versions -- every result must equal its baseline; (3) goroutines {4,8,16,64} x GOMAXPROCS {1,2,16} hammering the small shared input set, plus a hot-keys phase per repetition over only 2-4 inputs (parse, everything observable of shared read-only objects, Set on local copies, parse-mutate-parse, Rating) with results compared to baselines; (0) cold concurrent starts: short-lived processes in which NO go-cvss call has happened yet release 8-24 goroutines together, round by round, on the same parse + score + Vector call (550 first-use rounds each), judged against the spec oracles; (4) every Vector() string kept next to an immediate clone and re-compared later, forced GC every 10k events; (5) elapsed time: one plain-build process goes idle and wakes at process ages 0.5/1.5/3.5/7.5/15.5/47 s (thorough: also 110/300/910 s), each time making every alphabet call in a rotated order, re-reading the objects parsed at the start and re-setting every metric of clones to its own value -- all must equal the baselines (time is the stimulus, equality the verdict). Race reports are counted from the GORACE log (never from the exit code) and de-duplicated by first-frame pair. evaluations = events; distinct = distinct (previous call, current call) context pairs summed over builds",
 		DistinctN:   distinct,
-		Assumptions: []string{"the race detector sees only executed pairs of accesses; interleavings are explored, not enumerated", "in the plain build every baseline is also recomputed as the first call of a freshly started process; the sanitizer builds rely on the double-GC baseline"},
+		Assumptions: []string{"the race detector sees only executed pairs of accesses; interleavings are explored, not enumerated", "dependence on elapsed time is observed only up to the idle gaps lived through (31.5 s quick, 10 min thorough); dependence on the environment (variables, files, clock date) is not driven", "in the plain build every baseline is also recomputed as the first call of a freshly started process; the sanitizer builds rely on the double-GC baseline"},
 	})
 	c.Finish()
 }
